@@ -365,9 +365,17 @@ func c19ResultSet(t *rapid.T) {
 		exp.Cols = append(exp.Cols, c)
 		pairs = append(pairs, qsql.CoercePair{Column: "asbool", Type: qsql.Int64ToBool})
 	}
+	nullInCoerced := false
 	if rapid.Bool().Draw(t, "coercefloat") {
 		c := hx.Col{Name: "asfloat", Kind: hx.KFloat}
 		for r := 0; r < n; r++ {
+			if r > 0 && rapid.IntRange(0, 7).Draw(t, "coercednull") == 0 {
+				// a NULL in a coerced text column: the outcome (Err, or NaN) is not specified, but it must not panic
+				rs.Rows[r] = append(rs.Rows[r], nil)
+				c.F = append(c.F, math.NaN())
+				nullInCoerced = true
+				continue
+			}
 			txt := rapid.SampledFrom([]string{"1.5", "-0.25", "1e3", "0", "42", "3.14159", "1e-7"}).Draw(t, "numtext")
 			f, _ := strconv.ParseFloat(txt, 64)
 			rs.Rows[r] = append(rs.Rows[r], txt)
@@ -443,6 +451,10 @@ func c19ResultSet(t *rapid.T) {
 		}
 	}); perr != nil {
 		t.Fatalf("ReadSQL panicked: %v\n%s", perr, desc())
+	}
+	if qf.Err != nil && nullInCoerced {
+		evC19.Case(false, desc, "mode:resultset", "null-in-coerced-column:error")
+		return
 	}
 	if qf.Err != nil {
 		t.Fatalf("ReadSQL failed: %v\n%s", qf.Err, desc())
